@@ -262,15 +262,39 @@ def _same_violation(mod, scenario, tape, clause):
     return None
 
 
-def minimise(mod, scenario, tape, clause, budget=300):
-    """Greedy first-improvement descent over the property's shrink candidates."""
-    if not hasattr(mod, "shrink_candidates"):
-        return scenario, tape
+def _tape_candidates(tape):
+    """Fewer context switches: replace decisions by "stay on the running thread" (-1), in
+    blocks of halving size."""
+    n = len(tape)
+    size = n
+    while size >= 1:
+        for start in range(0, n, size):
+            if any(c != -1 for c in tape[start : start + size]):
+                t2 = list(tape)
+                t2[start : start + size] = [-1] * min(size, n - start)
+                yield t2
+        size //= 2
+        if size and n // size > 64:
+            break
+
+
+def minimise(mod, scenario, tape, clause, budget=300, wall=240.0):
+    """Greedy first-improvement descent: schedule tape first (generic), then the
+    property's own shrink candidates."""
+    t0 = time.time()
     tests = 0
     improved = True
-    while improved and tests < budget:
+    while improved and tests < budget and time.time() - t0 < wall:
         improved = False
-        for sc2, tp2 in mod.shrink_candidates(scenario, tape):
+
+        def cands():
+            if tape:
+                for t2 in _tape_candidates(tape):
+                    yield scenario, t2
+            if hasattr(mod, "shrink_candidates"):
+                yield from mod.shrink_candidates(scenario, tape)
+
+        for sc2, tp2 in cands():
             tests += 1
             r = _same_violation(mod, sc2, tp2, clause)
             if r is not None:
@@ -278,7 +302,7 @@ def minimise(mod, scenario, tape, clause, budget=300):
                 tape = tp2  # keep the requested tape (with its "stay" marks): shrinking stays monotone
                 improved = True
                 break
-            if tests >= budget:
+            if tests >= budget or time.time() - t0 > wall:
                 break
     return scenario, tape
 
@@ -335,12 +359,17 @@ def replay(prop, path, out=sys.stdout):
         print(f"HARNESS-ERROR replay diverged: {e}", file=out)
         return 2
     want = rp["expect"]["clause"]
+    findings = load_known_findings()
+    known = [v for v in r.violations if v["clause"] == want and match_known(findings, prop, v)]
     for v in r.violations:
-        if v["clause"] == want:
+        if v["clause"] == want and not match_known(findings, prop, v):
             print(f"VIOLATION property={prop} replay={path}", file=out)
             print(f"#   clause={v['clause']} key={v['key']} detail={v['detail'][:300]}", file=out)
             print(f"#   digest={r.digest}", file=out)
             return 1
+    for v in known:
+        fid = match_known(findings, prop, v)
+        print(f"KNOWN-FINDING: property={prop} {fid}: replayed violation clause={v['clause']} key={v['key']} is the listed finding", file=out)
     print(f"# replay of {path}: violation '{want}' did not occur (other: {[v['clause'] for v in r.violations]}) digest={r.digest}", file=out)
     return 0
 
